@@ -632,22 +632,24 @@ class PenlogReader:
         offset: int = 0,
         reverse: bool = False,
     ) -> Iterator[PenlogRecord]:
-        self.seek_to_record(offset)
+        n = len(self)
+        # A negative offset counts from the end; it is clamped to the start of the log.
+        first = max(n + offset, 0) if offset < 0 else offset
+        if first >= n:
+            return
         if reverse is False:
+            self.seek_to_record(first)
             while True:
                 if self.readline() == b"":
                     break
                 if self.current_priority <= priority:
                     yield self.current_record
         else:
-            while True:
+            for index in range(n - 1, first - 1, -1):
+                self.seek_to_record(index)
                 self.readline()
                 if self.current_priority <= priority:
                     yield self.current_record
-                try:
-                    self.seek_to_previous_record()
-                except IndexError:
-                    break
 
     def readline(self) -> bytes:
         self._current_record = None
